@@ -1,3 +1,69 @@
-"""Planted fixture self-check (filled in below)."""
+"""Planted fixture self-check: the rule code of a property is run, unchanged, on
+fixtures/planted; every planted violation must be reported and nothing else (the twins stay
+silent). Expectations live in fixtures/planted/expect.json."""
+import importlib
+import json
+import os
+
+import core
+import extract
+import facts as F
+
+ALLOWED_PREFIX = ("ANCHOR-MISSING:", "FLOOR:")
+
+
+def bless(pid):
+    """(maintenance) record the current non-anchor reports as the expectation — review by hand"""
+    exp_path = os.path.join(core.VERIF, "fixtures", "planted", "expect.json")
+    with open(exp_path) as fh:
+        allexp = json.load(fh)
+    mod = importlib.import_module("rules_" + pid)
+    fx = F.Facts(extract.planted_facts())
+    run = core.Run(pid, "planted")
+    run.known = []
+    run.ledger = lambda rule: _EmptyLedger()
+    mod.check(run, fx, "quick", floors=False)
+    got = sorted({(v["rule"], v["key"]) for v in run.violations if not v["key"].startswith(ALLOWED_PREFIX)})
+    allexp[pid] = {"must_fire": [list(g) for g in got]}
+    with open(exp_path, "w") as fh:
+        json.dump(allexp, fh, indent=1, sort_keys=True)
+    return got
+
+
 def selfcheck(pid, verbose=True):
-    return True, {"status": "stub"}
+    exp_path = os.path.join(core.VERIF, "fixtures", "planted", "expect.json")
+    with open(exp_path) as fh:
+        expect = json.load(fh).get(pid)
+    if expect is None:
+        return False, {"problems": ["no planted expectations for %s" % pid]}
+    mod = importlib.import_module("rules_" + pid)
+    fx = F.Facts(extract.planted_facts())
+    run = core.Run(pid, "planted")
+    run.known = []            # known findings never apply to the fixture
+    run.ledger = lambda rule: _EmptyLedger()
+    run.set_config("planted")
+    mod.check(run, fx, "quick", floors=False)
+    got = {(v["rule"], v["key"]) for v in run.violations}
+    must = {tuple(x) for x in expect["must_fire"]}
+    problems = []
+    for m in sorted(must - got):
+        problems.append("rule did not fire on planted violation %s %s" % m)
+    for g in sorted(got - must):
+        if g[1].startswith(ALLOWED_PREFIX):
+            continue
+        problems.append("unexpected report on the fixture (twin not silent?) %s %s" % g)
+    rep = {"planted_violations_expected": len(must), "reported": len(got & must),
+           "rules_exercised": sorted({m[0] for m in must}), "problems": problems}
+    if verbose:
+        for v in run.violations:
+            tag = "expected" if (v["rule"], v["key"]) in must else ("anchor" if v["key"].startswith(ALLOWED_PREFIX) else "UNEXPECTED")
+            print("  [%s] %s %s :: %s" % (tag, v["rule"], v["key"], v["message"][:140]))
+    return (not problems), rep
+
+
+class _EmptyLedger:
+    def allows(self, key):
+        return None
+
+    def stale(self):
+        return []
